@@ -67,6 +67,8 @@ pub struct Profile {
     pub multisampled: bool,
     /// after generating entry points, make every resource reachable from at least one entry point
     pub use_all_resources: bool,
+    /// chance (n/8) per vertex input struct to be also bound as a storage buffer (role "both")
+    pub vin_as_storage: u32,
 }
 
 impl Profile {
@@ -100,6 +102,7 @@ impl Profile {
             atomic_tex: true,
             multisampled: true,
             use_all_resources: false,
+            vin_as_storage: 0,
         }
     }
 }
@@ -1078,6 +1081,17 @@ pub fn gen_shader(ch: &mut Ch, p: &Profile) -> Shader {
                 gen_block(ch, &cx, p.stmts, 0)
             };
             sh.entries.push(Entry { stage: *stage, name, params, result, wg, body });
+        }
+    }
+    if p.vin_as_storage > 0 {
+        for st in shared_vin.clone() {
+            if ch.chance(p.vin_as_storage, 8) && !sh.structs[st].members.iter().any(|m| matches!(m.io, Io::Builtin(_))) {
+                let used: HashSet<u32> = sh.globals.iter().filter_map(|g| g.binding).filter(|b| b.0 == 0).map(|b| b.1).collect();
+                let b = (0..).find(|b| !used.contains(b)).unwrap();
+                let ty = if ch.flip() { Ty::St(st) } else { Ty::A(Box::new(Ty::St(st)), 2) };
+                sh.globals.push(Global { name: names.fresh(ch, "vbuf_", p.nonascii), kind: GKind::Buf { space: Space::StorageR, ty }, binding: Some((0, b)) });
+                sh.global_order.push(sh.globals.len() - 1);
+            }
         }
     }
     if p.use_all_resources && !sh.entries.is_empty() {
